@@ -3,6 +3,8 @@
 usage: /venv/bin/python -m harness.planners.dev_run <planner> <prop> [--tier quick|thorough] [--no-lean] [--search]
 """
 import argparse
+import sys as _sys
+_sys.dont_write_bytecode = True
 import importlib
 import os
 import sys
